@@ -95,17 +95,20 @@ class BuildHarness(Harness):
     max_paths = 3000000
     max_decisions = 200
 
-    def __init__(self, n, nameset=0, req=None):
+    def __init__(self, n, nameset=0, req=None, selfdep=True):
         self.n = n
+        self.selfdep = selfdep    # False: no target depends on itself (e[i][i] fixed to False)
         self.nameset = nameset
         self.req = req            # None = symbolic subset; else bit mask of requested targets
-        self.name = f"tasks.run[n={n},names={nameset},req={'sym' if req is None else req}]"
-        self.params = dict(n=n, nameset=nameset, req=req)
+        self.name = (f"tasks.run[n={n},names={nameset},req={'sym' if req is None else req}"
+                     f"{'' if selfdep else ',noselfdep'}]")
+        self.params = dict(n=n, nameset=nameset, req=req, selfdep=selfdep)
         self._formulas = None
 
     def inputs(self, mk):
         n = self.n
-        e = [[mk.bool(f"e_{i}_{j}") for j in range(n)] for i in range(n)]
+        e = [[(mk.bool(f"e_{i}_{j}") if (i != j or self.selfdep) else False) for j in range(n)]
+             for i in range(n)]
         if self.req is None:
             r = [mk.bool(f"r_{i}") for i in range(n)]
             mk.assume(sym_or(*r) if n > 1 else r[0])
@@ -171,8 +174,8 @@ class BuildHarness(Harness):
         }
 
 
-def mk_build(n, nameset=0, req=None):
-    return BuildHarness(n, nameset, req)
+def mk_build(n, nameset=0, req=None, selfdep=True):
+    return BuildHarness(n, nameset, req, selfdep)
 
 
 def jobs(tier, seed):
@@ -189,7 +192,7 @@ def jobs(tier, seed):
             for req in range(1, 16):
                 js.append(("mk_build", dict(n=4, nameset=ns, req=req)))
         for req in range(1, 32):
-            js.append(("mk_build", dict(n=5, nameset=0, req=req)))
+            js.append(("mk_build", dict(n=5, nameset=0, req=req, selfdep=False)))
     # big jobs first
     js.sort(key=lambda j: -j[1]["n"])
     only = os.environ.get("VERIF_ONLY")
